@@ -10,7 +10,11 @@ package main
 // serialised it by then), and ends with OK or a status.
 //
 //   A (streams): caller -> outer router's handler -> wrapper client -> [pkg/wrap stream] -> inner router -> device
-//   B (unary)  : typed call ON THE WRAPPER (the way users call it) with grpc.Header / grpc.Trailer options
+//   B (unary)  : typed call ON THE WRAPPER (the way users call it) with ANY list of call options: several
+//                grpc.Header / grpc.Trailer (the application's and a middleware's), other options in between
+//   C (streams): as A, but the device PARKS (inside its Header(), or inside the Recv after k messages) and the
+//                caller's context is cancelled once it is parked: what the server has not sent by then must
+//                not be forwarded
 //
 // The processor count is 1 while family A runs: with the hand-over channel of pkg/wrap unbuffered and the
 // receiver already waiting, the sending goroutine keeps the processor after a hand-over, so "the handler
@@ -18,6 +22,7 @@ package main
 
 import (
 	"context"
+	"errors"
 	"fmt"
 	"io"
 	"math/rand"
@@ -25,6 +30,7 @@ import (
 	"runtime"
 	"strconv"
 	"strings"
+	"time"
 
 	"google.golang.org/grpc"
 	"google.golang.org/grpc/codes"
@@ -51,6 +57,8 @@ type wrapCase struct {
 	// B: device script  stagedHeader:sentHeader:stagedTrailer:out(m3|e<tok>)
 	Dev     string `json:"device_script"`
 	Caller  string `json:"caller_script,omitempty"` // A: sendHeaderErr:failAt:sendErr
+	Opts    string `json:"call_options,omitempty"`  // B: h<var> grpc.Header(&var), t<var> grpc.Trailer(&var), o another option; `.`-separated ("" = h1.t2)
+	Park    string `json:"park,omitempty"`          // C: where the device parks until the caller goes away: h (in Header()) / r<k> (in the Recv after k messages) / u (unary: before answering); suffix d: the caller's deadline passes (else it cancels)
 	MsgSeed int64  `json:"msg_seed"`
 }
 
@@ -98,9 +106,74 @@ type wrapOutcome struct {
 	err    error
 	full   string
 	// B
-	resp   proto.Message
-	header metadata.MD
-	trail  metadata.MD
+	resp  proto.Message
+	vars  map[int]*metadata.MD // the caller's variables named by the call options
+	order []int                // … in order of first appearance
+	kinds map[int]string       // … and the kinds of option naming each ("h", "t", "ht")
+}
+
+// ctxEndTok: 1 if err is what a call ends with when its caller cancelled, 2 when the caller's deadline passed
+// (the context's own error or the gRPC status made from it), else 0.
+func ctxEndTok(err error) int {
+	if err == nil {
+		return 0
+	}
+	if errors.Is(err, context.Canceled) {
+		return 1
+	}
+	if errors.Is(err, context.DeadlineExceeded) {
+		return 2
+	}
+	st, ok := status.FromError(err)
+	if !ok || strings.HasPrefix(st.Message(), "tok") {
+		return 0
+	}
+	switch st.Code() {
+	case codes.Canceled:
+		return 1
+	case codes.DeadlineExceeded:
+		return 2
+	}
+	return 0
+}
+
+// parkPoint / parkEnd: where the device parks, and how the caller goes away (1 cancels, 2 deadline).
+func (c wrapCase) parkPoint() string { return strings.TrimSuffix(c.Park, "d") }
+func (c wrapCase) parkEnd() (int, error) {
+	if strings.HasSuffix(c.Park, "d") {
+		return 2, context.DeadlineExceeded
+	}
+	return 1, context.Canceled
+}
+
+// goAwayWhenParked: the caller's context ends as soon as (and only when) the device is parked. The context handed
+// to the code is an ordinary child of the hand-ended one: all contexts the code derives from it are then ended
+// in one go, parents first, like on a real cancel / timer (a hand-made context is propagated to each derived
+// context by a goroutine of its own, i.e. in any order).
+func goAwayWhenParked(plan *childPlan, c wrapCase, parent context.Context) (context.Context, context.CancelFunc) {
+	ec := newEndCtx(parent)
+	plan.ParkAt, plan.Parked, plan.Left = c.parkPoint(), make(chan struct{}), make(chan struct{})
+	_, how := c.parkEnd()
+	go func() {
+		select {
+		case <-plan.Parked:
+			ec.end(how)
+		case <-parent.Done():
+		}
+	}()
+	return context.WithCancel(ec)
+}
+
+// awaitLeft: once the call is over, give a device that parked the time to notice.
+func awaitLeft(plan *childPlan) {
+	select {
+	case <-plan.Parked:
+		select {
+		case <-plan.Left:
+		case <-time.After(10 * time.Second):
+		}
+	default:
+	}
 }
 
 // runWrapStream: family A on the real generated router and wrapper.
@@ -141,11 +214,17 @@ func runWrapStream(e entry, c wrapCase) (out wrapOutcome, err error) {
 	}
 	setName(req, unTilde(c.Name))
 	out.req = proto.Clone(req)
-	ctx, cancelAll := context.WithCancel(context.WithValue(context.Background(), ctxKey{}, "marker"))
+	root, cancelAll := context.WithCancel(context.WithValue(context.Background(), ctxKey{}, "marker"))
 	defer cancelAll()
+	ctx := context.Context(root)
 	plan := &childPlan{Yield: true}
 	out.plan = plan
 	g.rec.plan = plan
+	if c.Park != "" {
+		var stop context.CancelFunc
+		ctx, stop = goAwayWhenParked(plan, c, root)
+		defer stop()
+	}
 	dp := strings.Split(c.Dev, ":")
 	kp := strings.Split(c.Caller, ":")
 	if len(dp) != 9 || len(kp) != 3 {
@@ -198,6 +277,9 @@ func runWrapStream(e entry, c wrapCase) (out wrapOutcome, err error) {
 		return out, fmt.Errorf("%s: ServiceDesc has no stream %s", e.id(), c.Method)
 	}
 	rerr := h(reg.impl, ss)
+	if c.Park != "" {
+		awaitLeft(plan)
+	}
 	cancelAll()
 	g.rec.mu.Lock()
 	out.calls = append([]call(nil), g.rec.calls...)
@@ -222,8 +304,12 @@ func runWrapStream(e entry, c wrapCase) (out wrapOutcome, err error) {
 	if ss.trailerSet {
 		tr = mdList(ss.trailer)
 	}
+	stTok := errTok(rerr, unTilde(c.Name))
+	if t := ctxEndTok(rerr); c.Park != "" && t != 0 {
+		stTok = strconv.Itoa(t)
+	}
 	out.answer = fmt.Sprintf("calls=%s hdr=%s sent=%s sends=%d tr=%s st=%s %s",
-		showCalls(sd, out.calls, out.req), hdr, commaList(sent), ss.sends, tr, errTok(rerr, unTilde(c.Name)), g.stateString())
+		showCalls(sd, out.calls, out.req), hdr, commaList(sent), ss.sends, tr, stTok, g.stateString())
 	return
 }
 
@@ -233,21 +319,29 @@ func (c wrapCase) modelLine(midx int) string {
 		if len(dp) != 9 {
 			return "bad-case"
 		}
+		if c.Park != "" {
+			ce, _ := c.parkEnd()
+			return fmt.Sprintf("wcancel %s %s %s %s %d 5 %s %s %s %s %s %d", orNone(c.Fb), orNone(c.Fac), tildeList(c.Ops), c.Name, midx, dp[0], dp[1], strings.Join(dp[2:8], ":"), dp[8], c.parkPoint(), ce)
+		}
 		return fmt.Sprintf("wroute %s %s %s %s %d 5 %s %s %s %s %s", orNone(c.Fb), orNone(c.Fac), tildeList(c.Ops), c.Name, midx, dp[0], dp[1], strings.Join(dp[2:8], ":"), dp[8], c.Caller)
 	}
 	dp := strings.Split(c.Dev, ":")
 	if len(dp) != 4 {
 		return "bad-case"
 	}
-	return fmt.Sprintf("wcall %d 5 %s %s %s %s", midx, dp[0], dp[1], dp[2], dp[3])
+	if c.Park != "" {
+		ce, _ := c.parkEnd()
+		return fmt.Sprintf("wcallc %d 5 %s %s %s %s %d", midx, dp[0], dp[1], dp[2], c.callOpts(), ce)
+	}
+	return fmt.Sprintf("wcall %d 5 %s %s %s %s %s", midx, dp[0], dp[1], dp[2], dp[3], c.callOpts())
 }
 
 // monitorWrapStream: the property's statement for a routed stream whose registered client is a wrapped server,
 // with the DEVICE's script as the reference (plain Go, no model): what the device staged/sent/returned is what
 // the caller must receive.
-func monitorWrapStream(mon *lib.Monitor, e entry, c wrapCase, o wrapOutcome) {
+func monitorWrapStream(report func(sig, what, exp, obs string), e entry, c wrapCase, o wrapOutcome) {
 	sig := func(class string) string { return "C12/" + e.id() + "+wrapped-child/" + c.Method + "/" + class }
-	viol := func(class, what, exp, obs string) { mon.Violate(sig(class), what, c, exp, obs) }
+	viol := func(class, what, exp, obs string) { report(sig(class), what, exp, obs) }
 	target, ok := oracleTarget(routeCase{Fb: orNone(c.Fb), Fac: orNone(c.Fac), Ops: c.Ops, Name: c.Name})
 	ss, p := o.ss, o.plan
 	if !ok {
@@ -279,6 +373,10 @@ func monitorWrapStream(mon *lib.Monitor, e entry, c wrapCase, o wrapOutcome) {
 		viol("request-altered", "the request must pass through unaltered", fmt.Sprint(o.req), fmt.Sprint(k.Req))
 	}
 	dp := strings.Split(c.Dev, ":")
+	if c.Park != "" {
+		monitorWrapCancel(viol, c, o, dp)
+		return
+	}
 	failedEarly := p.OpenErr != nil || p.HeaderErr != nil
 	// header: everything the server attached to the call before its first message or its return
 	expHdr := joinToks(dp[0], dp[4])
@@ -353,6 +451,58 @@ func monitorWrapStream(mon *lib.Monitor, e entry, c wrapCase, o wrapOutcome) {
 	}
 }
 
+// monitorWrapCancel: family C — the caller went away while the server (device) was parked. What the server had
+// SENT by then is what the caller's stream may have been given: the header only if the server let it go
+// (staged metadata stays with the server), exactly the messages sent before, a cancellation as status; and the
+// server must have been told (its context ended).
+func monitorWrapCancel(viol func(class, what, exp, obs string), c wrapCase, o wrapOutcome, dp []string) {
+	ss, p := o.ss, o.plan
+	select {
+	case <-p.Parked:
+	default:
+		viol("server-not-reached", "the call must reach the server and run up to the point where it parks", "device parked at "+c.Park, fmt.Sprint("never parked; caller got ", o.err))
+		return
+	}
+	if p.LeftBy != "ctx" {
+		viol("server-not-cancelled", "when the caller goes away the context of the call on the wrapped server must end", "device context done", "device left its park by "+p.LeftBy)
+	}
+	gotHdr := "-"
+	if ss.headerCalled {
+		gotHdr = mdList(ss.header)
+	}
+	k := 0
+	if c.parkPoint() == "h" {
+		if gotHdr != "-" {
+			viol("unsent-header-forwarded", "a header the server has only STAGED (SetHeader) and never sent must not be forwarded once the caller has gone away", "no header metadata", gotHdr)
+		}
+	} else {
+		k, _ = strconv.Atoi(c.parkPoint()[1:])
+		if exp := joinToks(dp[0], dp[4]); gotHdr != exp {
+			viol("header-altered", "the header the server sent before the caller went away must have reached the caller's stream unaltered", exp, gotHdr)
+		}
+	}
+	if len(ss.sent) != k {
+		viol("messages-altered", "the caller's stream must have been given exactly the messages the server sent before the caller went away", fmt.Sprint(k), fmt.Sprint(len(ss.sent)))
+	}
+	for i, m := range ss.sent {
+		if i >= len(p.Msgs) || !proto.Equal(m, p.Msgs[i]) {
+			viol("messages-altered", "each response must arrive as it was when the server sent it", "message "+strconv.Itoa(i+1), fmt.Sprint(m))
+			break
+		}
+	}
+	if ce, how := c.parkEnd(); ctxEndTok(o.err) != ce {
+		viol("cancel-status", "a call whose caller went away must end with that cause as its status (cancelled / deadline exceeded)", how.Error(), fmt.Sprint(o.err))
+	}
+}
+
+// callOpts: the call options of a family B case.
+func (c wrapCase) callOpts() string {
+	if c.Opts == "" {
+		return "h1.t2"
+	}
+	return c.Opts
+}
+
 // runWrapCall: family B — a unary method called ON the generated wrapper, as its users do, asking for the
 // response metadata with the grpc.Header / grpc.Trailer call options.
 func runWrapCall(e entry, c wrapCase) (out wrapOutcome, err error) {
@@ -401,9 +551,44 @@ func runWrapCall(e entry, c wrapCase) (out wrapOutcome, err error) {
 	if !fn.IsValid() {
 		return out, fmt.Errorf("%s: the wrapper has no method %s", e.id(), c.Method)
 	}
-	ctx := context.WithValue(context.Background(), ctxKey{}, "marker")
-	var hdr, tr metadata.MD
-	rs := fn.Call([]reflect.Value{reflect.ValueOf(ctx), reflect.ValueOf(req), reflect.ValueOf(grpc.Header(&hdr)), reflect.ValueOf(grpc.Trailer(&tr))})
+	root, cancelAll := context.WithCancel(context.WithValue(context.Background(), ctxKey{}, "marker"))
+	defer cancelAll()
+	ctx := context.Context(root)
+	if c.Park != "" {
+		var stop context.CancelFunc
+		ctx, stop = goAwayWhenParked(plan, c, root)
+		defer stop()
+	}
+	args := []reflect.Value{reflect.ValueOf(ctx), reflect.ValueOf(req)}
+	out.vars, out.kinds = map[int]*metadata.MD{}, map[int]string{}
+	for _, t := range splitList(c.callOpts(), ".") {
+		if t == "o" {
+			args = append(args, reflect.ValueOf(grpc.WaitForReady(true)))
+			continue
+		}
+		id, e2 := strconv.Atoi(t[1:])
+		if e2 != nil || (t[0] != 'h' && t[0] != 't') {
+			return out, fmt.Errorf("bad call option %q", t)
+		}
+		v, ok := out.vars[id]
+		if !ok {
+			v = new(metadata.MD)
+			out.vars[id] = v
+			out.order = append(out.order, id)
+		}
+		if !strings.Contains(out.kinds[id], t[:1]) {
+			out.kinds[id] += t[:1]
+		}
+		if t[0] == 'h' {
+			args = append(args, reflect.ValueOf(grpc.Header(v)))
+		} else {
+			args = append(args, reflect.ValueOf(grpc.Trailer(v)))
+		}
+	}
+	rs := fn.Call(args)
+	if c.Park != "" {
+		awaitLeft(plan)
+	}
 	if len(rs) != 2 {
 		return out, fmt.Errorf("%s.%s: unexpected result arity", e.id(), c.Method)
 	}
@@ -413,21 +598,26 @@ func runWrapCall(e entry, c wrapCase) (out wrapOutcome, err error) {
 	if !rs[0].IsNil() {
 		out.resp, _ = rs[0].Interface().(proto.Message)
 	}
-	out.header, out.trail = hdr, tr
 	out.calls = rec.calls
 	o := "m0"
-	if out.err != nil {
+	if t := ctxEndTok(out.err); c.Park != "" && t != 0 {
+		o = "e" + strconv.Itoa(t)
+	} else if out.err != nil {
 		o = "e" + errTok(out.err, "x")
 	} else if out.resp != nil && plan.Resp != nil && proto.Equal(out.resp, plan.Resp) {
 		o = "m3"
 	}
-	out.answer = fmt.Sprintf("calls=%s hdr=%s tr=%s out=%s", showCalls(sd, out.calls, out.req), mdList(hdr), mdList(tr), o)
+	var vs []string
+	for _, id := range out.order {
+		vs = append(vs, strconv.Itoa(id)+":"+mdList(*out.vars[id]))
+	}
+	out.answer = fmt.Sprintf("calls=%s vars=%s out=%s", showCalls(sd, out.calls, out.req), commaList(vs), o)
 	return
 }
 
-func monitorWrapCall(mon *lib.Monitor, e entry, c wrapCase, o wrapOutcome) {
+func monitorWrapCall(report func(sig, what, exp, obs string), e entry, c wrapCase, o wrapOutcome) {
 	sig := func(class string) string { return "C12/" + e.id() + "+wrapper/call/" + class }
-	viol := func(class, what, exp, obs string) { mon.Violate(sig(class), what, c, exp, obs) }
+	viol := func(class, what, exp, obs string) { report(sig(class), what, exp, obs) }
 	p := o.plan
 	if len(o.calls) != 1 {
 		viol("not-reaching-server", "a call on the generated wrapper must reach the wrapped server exactly once", "1 call", fmt.Sprint(len(o.calls)))
@@ -446,11 +636,39 @@ func monitorWrapCall(mon *lib.Monitor, e entry, c wrapCase, o wrapOutcome) {
 		viol("context-lost", "the caller's context must reach the server", "context values visible", "not visible")
 	}
 	dp := strings.Split(c.Dev, ":")
-	if exp, got := joinToks(dp[0], dp[1]), mdList(o.header); exp != got {
-		viol("header-lost", "the header the server attached to the call (grpc.SetHeader / grpc.SendHeader) must reach a caller that passes grpc.Header, on success and on failure", exp, got)
+	if c.Park != "" {
+		// the caller went away while the server was parked: only a header the server had SENT may be reported
+		if p.LeftBy != "ctx" {
+			viol("server-not-cancelled", "when the caller goes away the context of the call on the wrapped server must end", "device context done", "device left its park by "+p.LeftBy)
+		}
+		for _, id := range o.order {
+			got := mdList(*o.vars[id])
+			if o.kinds[id] != "h" {
+				continue
+			}
+			if dp[1] == "-" && got != "-" {
+				viol("unsent-header-reported", "a header the server has only STAGED (SetHeader) and never sent must not be reported once the caller has gone away", fmt.Sprintf("variable %d empty", id), fmt.Sprintf("variable %d = %s", id, got))
+			} else if exp := joinToks(dp[0], dp[1]); dp[1] != "-" && exp != got {
+				viol("header-lost", "the header the server sent before the caller went away must reach every grpc.Header option", fmt.Sprintf("variable %d = %s", id, exp), fmt.Sprintf("variable %d = %s (options %s)", id, got, c.callOpts()))
+			}
+		}
+		if ce, how := c.parkEnd(); ctxEndTok(o.err) != ce {
+			viol("cancel-status", "a call whose caller went away must end with that cause as its status (cancelled / deadline exceeded)", how.Error(), fmt.Sprint(o.err))
+		}
+		return
 	}
-	if exp, got := joinToks(dp[2]), mdList(o.trail); exp != got {
-		viol("trailer-lost", "the trailer the server attached to the call (grpc.SetTrailer) must reach a caller that passes grpc.Trailer, on success and on failure", exp, got)
+	for _, id := range o.order {
+		got := mdList(*o.vars[id])
+		switch o.kinds[id] {
+		case "h":
+			if exp := joinToks(dp[0], dp[1]); exp != got {
+				viol("header-lost", "the header the server attached to the call (grpc.SetHeader / grpc.SendHeader) must reach EVERY grpc.Header option of the call (the application's and a middleware's), on success and on failure", fmt.Sprintf("variable %d = %s", id, exp), fmt.Sprintf("variable %d = %s (options %s)", id, got, c.callOpts()))
+			}
+		case "t":
+			if exp := joinToks(dp[2]); exp != got {
+				viol("trailer-lost", "the trailer the server attached to the call (grpc.SetTrailer) must reach EVERY grpc.Trailer option of the call, on success and on failure", fmt.Sprintf("variable %d = %s", id, exp), fmt.Sprintf("variable %d = %s (options %s)", id, got, c.callOpts()))
+			}
+		}
 	}
 	if p.Err != nil {
 		if !sameStatus(o.err, p.Err) {
@@ -540,23 +758,78 @@ func wrapCasesFor(rng *rand.Rand, e entry, method string, streaming bool, n int)
 		add(c)
 		c.Fac, c.Ops, c.Dev = "new", "-", "7:-:-:-:9:1.2:e24:4:r" // the wrapped server is made by the factory
 		add(c)
+		// C: the device parks, then the caller goes away
+		c = base
+		c.Ops, c.Name, c.Caller = "a:x:1,a:y:2", "y", "-:-:77"
+		for _, pc := range [][2]string{
+			{"7:6:-:-:9:1.2:eof:-:r", "h"},   // header and trailer staged, parked before anything is sent
+			{"7:-:-:-:9:1.2:eof:-:r", "r1"},  // staged and sent, one message, parked (the message re-used meanwhile)
+			{"-:6:-:-:-:1:eof:-:f", "r0"},    // an empty header sent, parked before the first message
+			{"7:-:-:-:9:1.2:eof:-:f", "r2d"}, // every message sent, parked, the caller's DEADLINE passes
+		} {
+			c.Dev, c.Park = pc[0], pc[1]
+			add(c)
+		}
 		for len(out) < n {
 			c = base
 			c.Fb, c.Fac = facKinds[rng.Intn(len(facKinds))], facKinds[rng.Intn(len(facKinds))]
 			c.Ops = randOps(rng, 3)
 			c.Name = namePool[rng.Intn(len(namePool))]
 			c.Dev, c.Caller = randDevStream(rng)
+			if rng.Intn(4) == 0 {
+				// a parking device: it opens, has no failure of its own, and the caller stays healthy until it cancels
+				dp := strings.Split(c.Dev, ":")
+				dp[2], dp[3], dp[7] = "-", "-", "-"
+				c.Dev, c.Caller = strings.Join(dp, ":"), "-:-:77"
+				c.Park = "h"
+				if k := rng.Intn(len(splitList(dp[5], ".")) + 2); k > 0 {
+					c.Park = "r" + strconv.Itoa(k-1)
+				}
+				if rng.Intn(3) == 0 {
+					c.Park += "d"
+				}
+			}
 			add(c)
 		}
 		return out
 	}
-	for _, dev := range []string{"7:9:6:m3", "7:-:6:e21", "-:9:-:m3", "-:-:-:m3", "7:-:-:m3", "-:9:6:e22"} {
+	fixed := [][2]string{
+		{"7:9:6:m3", "h1.h2.t3.t4"},    // the application's and a middleware's header and trailer options
+		{"7:-:6:e21", "t1.h2.o.h3.t4"}, // … in another order, another option in between, the call fails
+		{"-:9:-:m3", "h1.t2"},          // one of each
+		{"-:-:-:m3", "h1.h1.t2"},       // nothing attached; one variable named twice
+		{"7:-:-:m3", "o.t1.t2.t3.h4"},  // three trailer options
+		{"-:9:6:e22", "h1.h2.h3"},      // three header options, no trailer option
+		{"7:-:6:m3", "h1.h2.t3|u"},     // header and trailer staged, the server parked, the caller cancels
+		{"7:9:6:m3", "h1.t2.h3|ud"},    // header sent, the server parked, the caller's deadline passes
+	}
+	for _, dc := range fixed {
 		c := base
-		c.Dev = dev
+		c.Dev, c.Opts = dc[0], dc[1]
+		if i := strings.Index(c.Opts, "|"); i >= 0 {
+			c.Opts, c.Park = c.Opts[:i], c.Opts[i+1:]
+		}
 		add(c)
 		if len(out) >= n {
-			break
+			return out
 		}
+	}
+	for len(out) < n {
+		c := base
+		c.Dev = fixed[rng.Intn(len(fixed))][0]
+		var os []string
+		for i, k := 0, 1+rng.Intn(6); i < k; i++ {
+			os = append(os, []string{"h", "h", "t", "t", "o"}[rng.Intn(5)])
+			if os[i] != "o" {
+				// header and trailer variables are kept apart (1-3 / 4-6); a variable may be named twice
+				os[i] += strconv.Itoa(1 + rng.Intn(3) + 3*map[string]int{"h": 0, "t": 1}[os[i]])
+			}
+		}
+		c.Opts = strings.Join(os, ".")
+		if rng.Intn(4) == 0 {
+			c.Park = []string{"u", "ud"}[rng.Intn(2)]
+		}
+		add(c)
 	}
 	return out
 }
@@ -568,20 +841,38 @@ func runWrapCase(e entry, c wrapCase) (wrapOutcome, error) {
 	return runWrapCall(e, c)
 }
 
-func checkWrapCase(mon *lib.Monitor, e entry, c wrapCase) wrapOutcome {
-	var o wrapOutcome
+type wrapViol struct{ sig, what, exp, obs string }
+
+// judgeWrapCase runs one case and evaluates the monitor on it.
+func judgeWrapCase(e entry, c wrapCase) (o wrapOutcome, vs []wrapViol) {
 	var rerr error
+	report := func(sig, what, exp, obs string) { vs = append(vs, wrapViol{sig, what, exp, obs}) }
 	panicked, msg := lib.Catch(func() { o, rerr = runWrapCase(e, c) })
 	switch {
 	case panicked:
 		o.answer = "panic:" + strings.ReplaceAll(msg, " ", "_")
-		mon.Violate("C12/"+e.id()+"+wrapped-child/"+c.Method+"/panic", "a call through a wrapped server panicked", c, "no panic", msg)
+		report("C12/"+e.id()+"+wrapped-child/"+c.Method+"/panic", "a call through a wrapped server panicked", "no panic", msg)
 	case rerr != nil:
 		o.answer = "harness-error:" + strings.ReplaceAll(rerr.Error(), " ", "_")
 	case c.Streaming:
-		monitorWrapStream(mon, e, c, o)
+		monitorWrapStream(report, e, c, o)
 	default:
-		monitorWrapCall(mon, e, c, o)
+		monitorWrapCall(report, e, c, o)
+	}
+	return
+}
+
+func checkWrapCase(mon *lib.Monitor, e entry, c wrapCase) wrapOutcome {
+	o, vs := judgeWrapCase(e, c)
+	// A caller that goes away races the server by nature (the end of a context reaches the contexts derived from
+	// it one after the other): a verdict on such a case counts only if it repeats on fresh instances.
+	for i := 0; i < 2 && c.Park != "" && len(vs) > 0; i++ {
+		if o2, vs2 := judgeWrapCase(e, c); len(vs2) == 0 {
+			o, vs = o2, vs2
+		}
+	}
+	for _, v := range vs {
+		mon.Violate(v.sig, v.what, c, v.exp, v.obs)
 	}
 	return o
 }
@@ -590,7 +881,7 @@ func runWrapChild(f lib.Flags, res *lib.Result, drv *lib.Driver) {
 	tie := res.Tie("wrapped-children", "K1", "every generated router that has a generated wrapper x every method of its service: (A, server-streaming methods) the outer router's real stream handler with every registered client = Wrap<X>(inner generated router -> scripted device): fixed scripts (message re-used after Send; header staged + no message + error status; staged and sent; staged header and trailer + message + error; failure on arrival; nothing attached; caller failing in the middle; unknown name) then random registry histories, names and device scripts (staged header/trailer present or not x open error x header error x sent header x 0-3 messages x EOF/status x trailer x re-use x caller SendHeader/Send failure), processor count 1 so that the device's re-use of a message directly follows the hand-over; (B, unary methods) the method called on the generated wrapper itself by reflection with grpc.Header and grpc.Trailer options, device staging / sending header, setting trailer, answering or failing; compared with the Lean model Router ∘ Wrap ∘ Router (Wrapped.lean: pkg/wrap's stream as the fold of the handler's calls, composed with the forwarder models); distinct = (router, method, scripts)")
 	mon := res.Monitor("wrapped-children-faithful", "property statement on the same executions with the DEVICE's script as the reference (plain Go): one call on the server registered under the name with an equal request; the caller receives exactly the metadata the server attached (staged or sent; header also when the call fails without a message), each message as it was when sent (even though the server overwrites it afterwards), the server's status and trailer; an unknown name touches nothing; a unary call on the wrapper with grpc.Header/grpc.Trailer returns the server's header and trailer, response and status")
 	rng := lib.NewRand(f.Seed + 7777)
-	nS, nU := f.N(14, 150), f.N(4, 6)
+	nS, nU := f.N(18, 150), f.N(8, 24)
 	type pending struct {
 		e    entry
 		c    wrapCase
@@ -621,6 +912,9 @@ func runWrapChild(f lib.Flags, res *lib.Result, drv *lib.Driver) {
 			}
 			for _, c := range wrapCasesFor(rng, e, string(md.Name()), md.IsStreamingServer(), n) {
 				o := checkWrapCase(mon, e, c)
+				if c.Park != "" {
+					tie.Count("caller-goes-away-while-server-parked/" + c.Park)
+				}
 				if c.Streaming {
 					tie.Count("stream")
 					if strings.HasSuffix(c.Dev, ":r") {
@@ -632,8 +926,11 @@ func runWrapChild(f lib.Flags, res *lib.Result, drv *lib.Driver) {
 					}
 				} else {
 					tie.Count("unary-on-wrapper")
+					if strings.Count(c.callOpts(), "h") > 1 || strings.Count(c.callOpts(), "t") > 1 {
+						tie.Count("unary-on-wrapper/repeated-option-kind")
+					}
 				}
-				mon.Eval(e.id()+"/"+c.Method+"/"+c.Fb+"/"+c.Fac+"/"+c.Ops+"/"+c.Name+"/"+c.Dev+"/"+c.Caller, true, nil)
+				mon.Eval(e.id()+"/"+c.Method+"/"+c.Fb+"/"+c.Fac+"/"+c.Ops+"/"+c.Name+"/"+c.Dev+"/"+c.Caller+"/"+c.Opts+"/"+c.Park, true, nil)
 				batch = append(batch, pending{e, c, o, c.modelLine(md.Index())})
 			}
 		}
@@ -649,6 +946,6 @@ func runWrapChild(f lib.Flags, res *lib.Result, drv *lib.Driver) {
 		return
 	}
 	for i, p := range batch {
-		tie.Record(p.e.id()+"/"+p.c.Method+"/"+p.c.Fb+"/"+p.c.Fac+"/"+p.c.Ops+"/"+p.c.Name+"/"+p.c.Dev+"/"+p.c.Caller, true, p.c, ans[i], p.o.answer)
+		tie.Record(p.e.id()+"/"+p.c.Method+"/"+p.c.Fb+"/"+p.c.Fac+"/"+p.c.Ops+"/"+p.c.Name+"/"+p.c.Dev+"/"+p.c.Caller+"/"+p.c.Opts+"/"+p.c.Park, true, p.c, ans[i], p.o.answer)
 	}
 }
